@@ -23,6 +23,7 @@ type ConnCase struct {
 	Schedule       simworld.Schedule `json:"schedule"`
 	Transfer       TransferSpec      `json:"transfer"`
 	Retry          bool              `json:"retry,omitempty"`
+	CertChain      int               `json:"cert_chain,omitempty"`
 	ServerCIDLen   int               `json:"server_cid_len,omitempty"`
 	KeyUpdateEvery uint64            `json:"key_update_every,omitempty"`
 	Datagrams      bool              `json:"datagrams,omitempty"`
@@ -54,7 +55,7 @@ var QUICIDNames = []string{"Firefox_116A", "Firefox_116B", "Firefox_116C", "Chro
 
 // OptionsFor translates the client/server selection of a ConnCase into world options.
 func OptionsFor(cc *ConnCase) (Options, error) {
-	opt := Options{Schedule: cc.Schedule, RTT: time.Duration(cc.RTTms) * time.Millisecond, ServerCIDLen: cc.ServerCIDLen}
+	opt := Options{Schedule: cc.Schedule, RTT: time.Duration(cc.RTTms) * time.Millisecond, ServerCIDLen: cc.ServerCIDLen, CertIntermediates: cc.CertChain}
 	sconf := &quic.Config{EnableDatagrams: cc.Datagrams, MaxIdleTimeout: 60 * time.Second, HandshakeIdleTimeout: 20 * time.Second}
 	cconf := &quic.Config{EnableDatagrams: cc.Datagrams, MaxIdleTimeout: 60 * time.Second, HandshakeIdleTimeout: 20 * time.Second}
 	if cc.V2 {
